@@ -36,6 +36,10 @@ CONSTANTS ClipFiles,   \* set of <<fr, te_p, te_q, tden, ch, N>> : files on whic
           HistStride,  \* every HistStride-th clip is also run with each history: load, mutate / rewrite, load again
           ReadCache,   \* FALSE: every load reads the file (the implementation keeps no state between calls) |
                        \* TRUE: decoded blocks are cached by (path, offset, samples) and handed out without a copy (seeded change C15-r2sb1)
+          DeclFiles,   \* set of <<fr, te_p, te_q, tden, ch, N, decl>> : Recordings built by hand whose declared samplerate decl differs
+                       \* from header rate x time expansion; all clips are enumerated on them as on ClipFiles
+          HeaderRate,  \* FALSE: load_clip builds its time axis from recording.samplerate (the implementation) |
+                       \* TRUE: from header rate x time_expansion (seeded change C15-r7sb1)
           AliasAttrs   \* FALSE: resample builds fresh attributes for the new time axis (the implementation) |
                        \* TRUE: it writes step = 1/target into the live attrs of the source's time coordinate (seeded change C15-sb2)
 VARIABLES c, pc, m
@@ -45,7 +49,9 @@ vars == <<c, pc, m>>
 Mk(kind, f, s, e, src, w, h, tg) ==
     [kind |-> kind, fr |-> f[1], te |-> <<f[2], f[3]>>, tden |-> f[4], ch |-> f[5], N |-> f[6],
      s |-> s, e |-> e, src |-> src, w |-> w, h |-> h, target |-> tg, pre |-> 0,
-     hist |-> "none", N2 |-> f[6], base2 |-> 0]
+     hist |-> "none", N2 |-> f[6], base2 |-> 0, decl |-> 0]
+WithDecl(k, d) == [k EXCEPT !.decl = d]
+MaxTickD(f) == ((f[6] + Pad) * f[4]) \div f[7] + 1
 WithPre(k, p) == [k EXCEPT !.pre = p]
 Hists == {"mutate", "rewrite", "rewrite_len"}
 \* the file at the second load: other values (base 100); "rewrite_len": two frames longer or (odd start tick) shorter
@@ -63,7 +69,7 @@ SrcOff(k) == IF k.src = "rec" THEN 0 ELSE OffNum(k) \div k.tden
 \* output samples of the preliminary resample(source, p)
 PreNum(k, p) == (SrcN(k) * p) \div Sr(k)
 
-m0 == [off |-> 0, len |-> 0, pos |-> 0, rows |-> <<>>, t0 |-> 0, d |-> <<>>, step |-> 0,
+m0 == [off |-> 0, len |-> 0, pos |-> 0, rows |-> <<>>, rate |-> 0, t0 |-> 0, d |-> <<>>, step |-> 0,
        fd |-> <<>>, fstep |-> 0, np0 |-> 0, np |-> 0, nov |-> 0, num |-> 0, raised |-> "",
        pass |-> 1, fN |-> 0, fbase |-> 0,     \* which load this is; the file as it is now: frames, first value - 1
        cache |-> <<>>,                         \* ReadCache variant: <<rows>> of the cached block (<<>>: nothing cached)
@@ -75,6 +81,8 @@ Init == /\ pc = "start"
         /\ \/ \E f \in ClipFiles : c = Mk("rec", f, 0, 0, "rec", 0, 0, 0)
            \/ \E f \in ClipFiles : \E h \in Hists : c = WithHist(Mk("rec", f, 0, 0, "rec", 0, 0, 0), h)
            \/ \E f \in ClipFiles : \E e \in 0..MaxTick(f) : \E s \in 0..e : c = Mk("clip", f, s, e, "clip", 0, 0, 0)
+           \/ \E f \in DeclFiles : c = WithDecl(Mk("rec", f, 0, 0, "rec", 0, 0, 0), f[7])
+           \/ \E f \in DeclFiles : \E e \in 0..MaxTickD(f) : \E s \in 0..e : c = WithDecl(Mk("clip", f, s, e, "clip", 0, 0, 0), f[7])
            \/ \E f \in ClipFiles : \E e \in 0..MaxTick(f) : \E s \in 0..e : \E h \in Hists :
                  (s + 3 * e) % HistStride = 0 /\ c = WithHist(Mk("clip", f, s, e, "clip", 0, 0, 0), h)
            \/ \E f \in SpecSrcs : \E w \in 1..MaxW : \E h \in 1..(2 * w) :
@@ -132,7 +140,9 @@ AxisEmpty == /\ pc = "axis" /\ m.len = 0 /\ ~EmptyGuard
 Axis      == /\ pc = "axis" /\ ~(m.len = 0 /\ ~EmptyGuard)
              /\ LET cnt  == m.len
                     drop == cnt > 0 /\ 2 * (m.off + cnt - 1) >= 2 * (m.off + m.len) - 1
-                IN  m' = [m EXCEPT !.t0 = m.off, !.d = Iota(IF drop THEN cnt - 1 ELSE cnt), !.step = 1]
+                \* t0, d, step are in samples of m.rate, the rate the axis is built from
+                IN  m' = [m EXCEPT !.t0 = m.off, !.d = Iota(IF drop THEN cnt - 1 ELSE cnt), !.step = 1,
+                                   !.rate = IF HeaderRate THEN (c.fr * c.te[1]) \div c.te[2] ELSE Sr(c)]
              /\ pc' = After /\ Stay
 
 (* ---- between the two loads of a case with a history: the caller edits the returned array in place (in the
@@ -210,6 +220,12 @@ Q_SpecSrcs == {<<8, 1, 1, 32, 1, 12, 0, 0>>, <<8, 1, 1, 32, 2, 16, 10, 50>>, <<8
 \* resampled to 186 / 279 Hz are 200 / 300 samples
 Q_ResSrcs  == {<<93, 1, 1, 372, 1, 100, 0, 0>>, <<8, 1, 1, 32, 1, 12, 0, 0>>, <<8, 1, 1, 32, 2, 16, 10, 50>>, <<8, 2, 1, 64, 1, 7, 0, 0>>, <<10, 1, 1, 40, 1, 9, 0, 0>>,
                <<44100, 1, 1, 176400, 1, 12, 0, 0>>}
+\* header 8 Hz declared 16 Hz, header 12 Hz declared 8 Hz (exact units); 5512 Hz x 8 declared 44100, 83333 Hz x 3 declared
+\* 250000, 8000 Hz declared 8001 (stress units); quarter-sample lattices of the declared rate
+Q_DeclFiles   == {<<8, 1, 1, 64, 1, 5, 16>>, <<12, 1, 1, 32, 2, 4, 8>>, <<5512, 8, 1, 176400, 1, 4, 44100>>,
+                  <<83333, 3, 1, 1000000, 1, 3, 250000>>, <<8000, 1, 1, 32004, 2, 4, 8001>>}
+T_DeclFiles   == Q_DeclFiles \cup {<<4, 2, 1, 64, 2, 9, 16>>, <<16, 1, 2, 64, 1, 7, 16>>, <<5512, 8, 1, 176400, 2, 7, 44100>>,
+                                   <<10, 1, 1, 44, 1, 6, 11>>}
 Q_Pres        == {3, 12, 22050}
 Q_PreSpecSrcs == {<<8, 1, 1, 32, 2, 16, 10, 50>>, <<22050, 1, 1, 88200, 1, 12, 0, 0>>}
 Q_Targets  == {1, 2, 3, 4, 5, 6, 7, 8, 9, 10, 12, 16, 20, 186, 279, 22050, 44100, 48000}
@@ -230,7 +246,8 @@ T_PreSpecSrcs == {<<8, 1, 1, 32, 2, 24, 10, 70>>, <<16, 1, 2, 32, 1, 12, 5, 41>>
 T_Targets  == (1..24) \cup {186, 198, 279, 30, 32, 40, 64, 80, 100, 4000, 8000, 11025, 16000, 22050, 32000, 44100, 48000, 96000}
 
 (* ---- Impl => Req ---- *)
-ImplClipRefinesReq == (pc = "done" /\ c.kind = "clip") => ClipReqI(c, m.len, m.t0, m.rows, m.d)
+\* (times of ClipReqI are in samples of the recording's samplerate, so the axis must have been built from that rate)
+ImplClipRefinesReq == (pc = "done" /\ c.kind = "clip") => ClipReqI(c, m.len, m.t0, m.rows, m.d) /\ m.rate = Sr(c)
 \* load_recording returns the file as it is at the time of the call (what ClipSameAsRecording compares clips with)
 ImplRecIsFile      == (pc = "done" /\ c.kind = "rec") =>
                          m.len = c.N2 /\ m.rows = [i \in 1..c.N2 |-> FileRow(i - 1, c.ch, c.N2, c.base2)]
